@@ -1,6 +1,7 @@
 import RbModel.Bits
 /-!
-C19 — bit-level primitives agree with two's complement (integer part).
+C19 — bit-level primitives agree with two's complement (integer part) and MKD$/CVD are the
+little-endian byte split of the 64-bit pattern of a double and its exact inverse (double part).
 
 Spec side: `word a = a mod 2^16` as a natural, `signed u` its signed reading,
 `&&&` / `|||` on `Nat` the bitwise operations on words, `natBits n x` the `n` low bits of `x`
@@ -332,8 +333,141 @@ theorem poke_word (a b : Int) (ha : InRange a) (hb : InRange b) :
     have : (word a % 256 + 256 * (word b / 256)) / 256 = word b / 256 := by omega
     rw [this, key]
 
+/-! ### doubles: MKD$ / CVD on 64-bit patterns
+
+`w` is the IEEE-754 binary64 bit pattern of the double (`f64::to_bits`, trusted); `f64ToBytes` is what
+`f64_to_bytes` (MKD$) does to it and `bytesToF64` what `bytes_to_f64` (CVD) does. -/
+
+theorem splitLE_length (n w : Nat) : (splitLE n w).length = n := by
+  induction n generalizing w with
+  | zero => rfl
+  | succ n ih => simp [splitLE, ih]
+
+theorem splitLE_lt (n w : Nat) : ∀ b ∈ splitLE n w, b < 256 := by
+  induction n generalizing w with
+  | zero => simp [splitLE]
+  | succ n ih =>
+    intro b hb
+    simp only [splitLE, List.mem_cons] at hb
+    rcases hb with hb | hb
+    · subst hb; exact Nat.mod_lt _ (by decide)
+    · exact ih _ b hb
+
+/-- byte `i` of the split is bits `8i .. 8i+7` of `w`: least significant byte first -/
+theorem splitLE_get (n w i : Nat) (h : i < n) : (splitLE n w)[i]? = some (w / 256 ^ i % 256) := by
+  induction n generalizing w i with
+  | zero => omega
+  | succ n ih =>
+    cases i with
+    | zero => simp [splitLE]
+    | succ i =>
+      simp only [splitLE, List.getElem?_cons_succ]
+      rw [ih (w / 256) i (by omega), Nat.div_div_eq_div_mul, Nat.pow_succ, Nat.mul_comm]
+
+theorem joinLE_splitLE (n w : Nat) : joinLE (splitLE n w) = w % 256 ^ n := by
+  induction n generalizing w with
+  | zero => simp [splitLE, joinLE, Nat.mod_one]
+  | succ n ih =>
+    simp only [splitLE, joinLE, ih]
+    rw [Nat.pow_succ, Nat.mul_comm (256 ^ n) 256, Nat.mod_mul]
+
+theorem splitLE_joinLE (bs : List Nat) (hb : ∀ b ∈ bs, b < 256) :
+    splitLE bs.length (joinLE bs) = bs := by
+  induction bs with
+  | nil => rfl
+  | cons b bs ih =>
+    have hb0 : b < 256 := hb b (List.mem_cons_self ..)
+    have ih' := ih (fun x hx => hb x (List.mem_cons_of_mem _ hx))
+    simp only [List.length_cons, splitLE, joinLE]
+    have h1 : (b + 256 * joinLE bs) % 256 = b := by omega
+    have h2 : (b + 256 * joinLE bs) / 256 = joinLE bs := by omega
+    rw [h1, h2, ih']
+
+theorem joinLE_lt (bs : List Nat) (hb : ∀ b ∈ bs, b < 256) : joinLE bs < 256 ^ bs.length := by
+  induction bs with
+  | nil => simp [joinLE]
+  | cons b bs ih =>
+    have hb0 : b < 256 := hb b (List.mem_cons_self ..)
+    have ih' := ih (fun x hx => hb x (List.mem_cons_of_mem _ hx))
+    simp only [List.length_cons, joinLE, Nat.pow_succ]
+    omega
+
+/-- MKD$ yields eight bytes. -/
+theorem bytes_length (w : Nat) : (f64ToBytes w).length = 8 ∧ ∀ b ∈ f64ToBytes w, b < 256 :=
+  ⟨splitLE_length 8 w, splitLE_lt 8 w⟩
+
+/-- MKD$ yields the bytes of the 64-bit pattern, least significant first:
+byte `i` is `(w / 256^i) mod 256`. -/
+theorem byte_i_is_bits (w i : Nat) (h : i < 8) : (f64ToBytes w)[i]? = some (w / 256 ^ i % 256) :=
+  splitLE_get 8 w i h
+
+/-- the same, written out -/
+theorem bytes_explicit (w : Nat) :
+    f64ToBytes w = [w % 256, w / 256 % 256, w / 256 ^ 2 % 256, w / 256 ^ 3 % 256, w / 256 ^ 4 % 256,
+      w / 256 ^ 5 % 256, w / 256 ^ 6 % 256, w / 256 ^ 7 % 256] := by
+  simp [f64ToBytes, splitLE, Nat.div_div_eq_div_mul]
+
+/-- CVD is the exact inverse of MKD$: `CVD(MKD$(x)) = x` for every double, at the level of bit
+patterns (every `w < 2^64`: normal, subnormal, ±0, ±infinity and every NaN pattern alike). -/
+theorem join_split (w : Nat) (h : w < 2 ^ 64) : bytesToF64 (f64ToBytes w) = w := by
+  unfold bytesToF64 f64ToBytes
+  rw [joinLE_splitLE]
+  exact Nat.mod_eq_of_lt (by omega)
+
+/-- The inverse direction: `MKD$(CVD(s)) = s` for every string of 8 bytes, and the decoded pattern
+is a 64-bit pattern. -/
+theorem split_join (bs : List Nat) (hlen : bs.length = 8) (hb : ∀ b ∈ bs, b < 256) :
+    f64ToBytes (bytesToF64 bs) = bs ∧ bytesToF64 bs < 2 ^ 64 := by
+  unfold bytesToF64 f64ToBytes
+  constructor
+  · have := splitLE_joinLE bs hb
+    rwa [hlen] at this
+  · have := joinLE_lt bs hb
+    rw [hlen] at this
+    omega
+
+/-- MKD$ is injective on 64-bit patterns: different doubles have different strings. -/
+theorem f64ToBytes_injective (v w : Nat) (hv : v < 2 ^ 64) (hw : w < 2 ^ 64)
+    (h : f64ToBytes v = f64ToBytes w) : v = w := by
+  rw [← join_split v hv, ← join_split w hw, h]
+
+/-- The IEEE-754 fields of a pattern determine it ... -/
+theorem pack_fields (w : Nat) (h : w < 2 ^ 64) :
+    f64Pack (f64Sign w) (f64Exponent w) (f64Fraction w) = w := by
+  unfold f64Pack f64Sign f64Exponent f64Fraction
+  omega
+
+/-- ... and are recovered from it: sign 1 bit, exponent 11 bits, fraction 52 bits, msb first. -/
+theorem fields_pack (s e f : Nat) (hs : s < 2) (he : e < 2048) (hf : f < 2 ^ 52) :
+    f64Pack s e f < 2 ^ 64 ∧ f64Sign (f64Pack s e f) = s ∧ f64Exponent (f64Pack s e f) = e ∧
+      f64Fraction (f64Pack s e f) = f := by
+  unfold f64Pack f64Sign f64Exponent f64Fraction
+  refine ⟨by omega, by omega, by omega, by omega⟩
+
+/-- where the fields sit in the string: the sign is the top bit of the last byte, the exponent its
+other seven bits and the top four bits of the byte before, the fraction everything below. -/
+theorem fields_in_bytes (w : Nat) (h : w < 2 ^ 64) :
+    ∃ b0 b1 b2 b3 b4 b5 b6 b7, f64ToBytes w = [b0, b1, b2, b3, b4, b5, b6, b7] ∧
+      f64Sign w = b7 / 128 ∧ f64Exponent w = b7 % 128 * 16 + b6 / 16 ∧
+      f64Fraction w = joinLE [b0, b1, b2, b3, b4, b5, b6 % 16] := by
+  refine ⟨_, _, _, _, _, _, _, _, bytes_explicit w, ?_, ?_, ?_⟩
+  · unfold f64Sign; omega
+  · unfold f64Exponent; omega
+  · unfold f64Fraction; simp only [joinLE]; omega
+
 /-! ### non-vacuity: concrete values meet the hypotheses and exercise both signs -/
 example : InRange (-32768) ∧ InRange 32767 ∧ qbAnd 5 (-2) = 4 ∧ qbOr (-32768) 1 = -32767 ∧
     i32ToBytes (-2) = [254, 255] ∧ bytesToI32 [0, 128] = -32768 := by decide
+
+/-- 1.0, -2.0 (the repository's own test vectors), the smallest subnormal, 2^63, -0.0, +infinity and a
+signalling NaN with payload 1 -/
+example : f64ToBytes 0x3FF0000000000000 = [0, 0, 0, 0, 0, 0, 0xF0, 0x3F] ∧
+    f64ToBytes 0xC000000000000000 = [0, 0, 0, 0, 0, 0, 0, 0xC0] ∧
+    f64ToBytes 1 = [1, 0, 0, 0, 0, 0, 0, 0] ∧ bytesToF64 [1, 0, 0, 0, 0, 0, 0, 0] = 1 ∧
+    f64ToBytes (f64Pack 0 (1023 + 63) 0) = [0, 0, 0, 0, 0, 0, 0xE0, 0x43] ∧
+    f64ToBytes (f64Pack 1 0 0) = [0, 0, 0, 0, 0, 0, 0, 0x80] ∧
+    bytesToF64 [0, 0, 0, 0, 0, 0, 0xF0, 0x7F] = f64Pack 0 2047 0 ∧
+    bytesToF64 [1, 0, 0, 0, 0, 0, 0xF0, 0xFF] = f64Pack 1 2047 1 ∧
+    (0x3FF0000000000000 : Nat) < 2 ^ 64 := by decide
 
 end RbThm.C19
